@@ -264,8 +264,11 @@ def c04_case(rng):
     spec['init']['pos'] = spec['init']['pos'][:2]
     L = rng.choice([0.0, rng.uniform(0.01, 0.8), rng.uniform(0.8, 3.0), -rng.uniform(0.01, 1.0)])
     spec['load']['coef'] = [L, 0.0, 0.0, 0.0, 0.0]
-    D = rng.choice([1.0, 1.0, rng.uniform(0.3, 1.0), -rng.uniform(0.3, 1.0), rng.uniform(-0.02, 0.02)])
+    D = rng.choice([1.0, 1.0, rng.uniform(0.3, 1.0), -rng.uniform(0.3, 1.0), rng.uniform(-0.02, 0.02), 0.0])
     spec['motor']['pwm0'] = D
+    if rng.random() < 0.3:
+        # the constant duty cycle is commanded by a controller (one ConstantPWM rule covering the whole run)
+        spec['rules'] = [{'type': 'const', 'start': [0.0, 'sec'], 'dur': [1e9, 'sec'], 'value': D}]
     pre = []
     if rng.random() < 0.4:
         sim_props.inject_redeclare(rng, spec, pre)      # e.g. one leg of an efficiency sweep on existing objects
@@ -384,8 +387,14 @@ def run_C04(ctx):
     rng = ctx.rng
     for _ in range(ctx.budget(25, 500) * ctx.boost):
         eval_c04(ctx, c04_case(rng))
+    # corner: a controller commanding a duty cycle of exactly 0 (coasting) and of exactly +-1
+    for D in [0.0, 0.0, 1.0, -1.0][:ctx.budget(3, 4)]:
+        case = c04_case(rng)
+        case['spec']['motor']['pwm0'] = D
+        case['spec']['rules'] = [{'type': 'const', 'start': [0.0, 'sec'], 'dur': [1e9, 'sec'], 'value': D}]
+        eval_c04(ctx, case)
     ctx.rule = ('non-self-locking chains, constant loads below and above stall (either sign), constant duty cycles (full, partial, '
-                'reversed, inside the dead zone), horizons of 2-5 time constants, dt, dt/2, dt/4, dt/8 with k*dt <= 0.2; at every '
+                'reversed, inside the dead zone, exactly 0; set on the motor or commanded by a controller), horizons of 2-5 time constants, dt, dt/2, dt/4, dt/8 with k*dt <= 0.2; at every '
                 'instant speed and position are compared with the closed-form solution against the proved first-order bound; '
                 'the halving of the error is measured (test); every case is non-trivial')
 
